@@ -201,6 +201,7 @@ def concurrently(world, seed, p, run_a, run_b, summarize):
         try:
             summ = summarize(run_b())
             summ["switches"] = coord.switches
+            summ["coord_log"] = list(coord.log)
         except BaseException as e:  # noqa
             import traceback
             summ = {"status": "harness-exc", "error": "%s: %s\n%s" % (type(e).__name__, e, traceback.format_exc())}
